@@ -23,6 +23,7 @@ package dependency // import "pault.ag/go/debian/dependency"
 import (
 	"errors"
 	"fmt"
+	"strings"
 )
 
 // Parse a string into a Dependency object. The input should look something
@@ -86,6 +87,12 @@ func eatWhitespace(input *input) {
 
 /* */
 func parseDependency(input *input, ret *Dependency) error {
+	if strings.IndexByte(input.Data, 0) != -1 {
+		/* Peek() hands out a NUL for "no more input": a real one would
+		 * quietly end the field and hide whatever stands behind it */
+		return errors.New("NUL byte in a dependency field")
+	}
+
 	eatWhitespace(input)
 
 	for {
